@@ -91,6 +91,9 @@ ObsAsHub(ev) == [emit |-> ev.emit]
 C05Fail(Hpre, ev) ==
      (IF ~SeqGapFree(Hpre, ObsAsHub(ev)) THEN {"C05.SeqGap"} ELSE {})
 \cup (IF ~TotalOrder([emit |-> [c \in DOMAIN ev.emit |-> Clean(ev.emit[c])]]) THEN {"C05.TotalOrder"} ELSE {})
+\* ... and with the manager's own log messages in place: they are messages, too (two receivers of a data message and of a
+\* log message see the two in the same order)
+\cup (IF ~TotalOrder(ObsAsHub(ev)) THEN {"C05.TotalOrder"} ELSE {})
 
 (* sequence counters follow the observation (the number of MESSAGE_TRAFFIC sub-messages is open) *)
 FollowCnt(Hpre, cand, ev) ==
